@@ -31,7 +31,7 @@ func tagCandidates(td *gen.TD) (cands []string, numKind string, softColl bool) {
 	if sh.IsLeaf() {
 		switch b := sh.Base(); {
 		case b == "dur":
-			return []string{"required", "nonzero", "positive", "min", "max"}, "dur", false
+			return []string{"required", "nonzero", "positive", "min", "max", "min", "max"}, "dur", false
 		case strings.HasPrefix(b, "int"):
 			return []string{"required", "nonzero", "positive", "min", "max"}, "int", false
 		case strings.HasPrefix(b, "uint"):
@@ -56,11 +56,19 @@ func tagCandidates(td *gen.TD) (cands []string, numKind string, softColl bool) {
 
 var (
 	// incl. bounds next to the limits of the 64-bit kinds and beyond 2^53, where neighbouring integers are not
-	// distinguishable as float64
-	intParams   = []string{"0", "1", "2", "42", "100", "-1", "9223372036854775806", "9223372036854775807", "9007199254740992", "-9223372036854775807"}
-	uintParams  = []string{"0", "1", "2", "42", "100", "18446744073709551614", "9007199254740992", "9223372036854775808"}
-	floatParams = []string{"0", "1", "1.5", "42", "-2.25"}
-	durParams   = []string{"0", "1s", "10ns", "1500ms", "2h", "-1s", "1", "10", "1.5"}
+	// distinguishable as float64; every integer syntax of strconv.ParseInt/ParseUint with base 0, which is what the
+	// code reads the parameter with (hexadecimal, octal with and without 'o', binary, digit separators, signs)
+	intParams = []string{"0", "1", "2", "42", "100", "-1", "9223372036854775806", "9223372036854775807", "9007199254740992", "-9223372036854775807",
+		"0x10", "0X2a", "0o17", "017", "0b101", "1_000", "+5", "-0x10", "-017", "-0", "0x7fffffffffffffff", "-5", "16"}
+	uintParams = []string{"0", "1", "2", "42", "100", "18446744073709551614", "9007199254740992", "9223372036854775808",
+		"0x10", "0X2a", "0o17", "017", "0b101", "1_000", "0xffffffffffffffff", "16"}
+	// every float syntax of strconv.ParseFloat that denotes a finite number
+	floatParams = []string{"0", "1", "1.5", "42", "-2.25", "1e2", ".5", "+1.5", "-0.5", "1E-3", "0x1p-1", "-0", "100.5", "-1"}
+	// duration bounds: unit syntax (compound, fractional, signed) and plain numbers counting seconds (integral,
+	// fractional, negative, exponent form)
+	durParams = []string{"0", "1s", "10ns", "1500ms", "2h", "-1s", "1", "10", "1.5",
+		"0.5", "-0.5", "-1.5", ".25", "1e-3", "2.5", "-2", "-1", "0.000000001", "7200", "1E1",
+		"1h30m", "1.5h", "+1s", "-1.5s", "1m0.5s", "1us", "500ms", "0s", "-200ms"}
 )
 
 func genTag(t *rapid.T, cands []string, numKind string) string {
@@ -81,11 +89,18 @@ func genTag(t *rapid.T, cands []string, numKind string) string {
 	case "dur":
 		pool = durParams
 	}
-	return name + "=" + rapid.SampledFrom(pool).Draw(t, "vparam")
+	eq := "="
+	if rapid.IntRange(0, 7).Draw(t, "eqblank") == 0 {
+		eq = rapid.SampledFrom([]string{" = ", "= ", " ="}).Draw(t, "eq") // blanks around name and parameter do not count
+	}
+	return name + eq + rapid.SampledFrom(pool).Draw(t, "vparam")
 }
 
+func tagName(tag string) string { return strings.TrimSpace(strings.SplitN(tag, "=", 2)[0]) }
+
 // assignTags puts validate tags on fields at any depth of the type: on one
-// eligible field in odds+1 (collections of non-structs: a third of that).
+// eligible field in odds+1 (collections of non-structs: a third of that;
+// inline collection fields and durations: every second one at least).
 func assignTags(t *rapid.T, td *gen.TD, odds int) {
 	switch td.Kind {
 	case "ptr", "slice", "array", "map":
@@ -94,11 +109,22 @@ func assignTags(t *rapid.T, td *gen.TD, odds int) {
 		for i := range td.Fields {
 			f := &td.Fields[i]
 			assignTags(t, f.T, odds)
-			if f.Inline || f.Ignore || f.Unexp || f.Validate != "" {
+			if f.Ignore || f.Unexp || f.Validate != "" {
 				continue
 			}
-			if base, _ := stripPtr(f.T); base.Shape().Kind == "slice" && f.Policy == "" && rapid.IntRange(0, 5).Draw(t, "ptag") == 0 {
-				f.Policy = rapid.SampledFrom([]string{"append", "prepend", "replace"}).Draw(t, "ptagv")
+			kind := f.T.Shape().Kind
+			if isInline(f) && kind != "slice" && kind != "array" && kind != "map" {
+				continue // inline structs: no validator is defined for the struct kind
+			}
+			if isInline(f) && kind == "map" && open("D55") {
+				continue // class of D55: tags of an inline map field are not applied on the configuration path
+			}
+			if base, _ := stripPtr(f.T); base.Shape().Kind == "slice" && listPolicyOf(f) == "" && rapid.IntRange(0, 5).Draw(t, "ptag") == 0 {
+				lp := rapid.SampledFrom([]string{"append", "prepend", "replace"}).Draw(t, "ptagv")
+				if f.Policy != "" {
+					lp = f.Policy + "," + lp // squash,append
+				}
+				f.Policy = lp
 			}
 			cands, numKind, soft := tagCandidates(f.T)
 			if len(cands) == 0 {
@@ -108,12 +134,15 @@ func assignTags(t *rapid.T, td *gen.TD, odds int) {
 			if soft {
 				o = 3*odds + 2
 			}
+			if (isInline(f) || numKind == "dur") && o > 1 {
+				o = 1 // every second inline collection and duration field
+			}
 			if rapid.IntRange(0, o).Draw(t, "hasv") != 0 {
 				continue
 			}
 			f.Validate = genTag(t, cands, numKind)
 			if rapid.IntRange(0, 3).Draw(t, "second") == 0 {
-				if second := genTag(t, cands, numKind); strings.SplitN(second, "=", 2)[0] != strings.SplitN(f.Validate, "=", 2)[0] {
+				if second := genTag(t, cands, numKind); tagName(second) != tagName(f.Validate) {
 					sep := ","
 					if rapid.Bool().Draw(t, "blank") {
 						sep = ", "
@@ -123,6 +152,123 @@ func assignTags(t *rapid.T, td *gen.TD, odds int) {
 			}
 		}
 	}
+}
+
+// ---------------------------------------------------------------------------
+// inline fields of every kind the code accepts: struct (drawn by the shared type
+// generator), map, slice and array. wrapInline replaces some collection types T
+// and some struct types below the top level (field types and element types;
+// named catalogue types with Validate / InitDefaults included) by
+//
+//	struct { C T `config:",inline"` }      (sometimes with a named sibling field)
+//
+// For the configuration nothing changes: the setting of such a struct is the
+// list / object itself. Pointers to collections are not inlined: the code
+// rejects a nil one ("require map or struct when inlining").
+
+func inlineCollField(sh *gen.TD) *gen.FD {
+	if sh.Kind != "struct" {
+		return nil
+	}
+	for i := range sh.Fields {
+		if f := &sh.Fields[i]; isInline(f) {
+			switch f.T.Shape().Kind {
+			case "slice", "array", "map":
+				return f
+			}
+		}
+	}
+	return nil
+}
+
+func maybeWrap(t *rapid.T, td *gen.TD, ctr *int) *gen.TD {
+	sh := td.Shape()
+	switch sh.Kind {
+	case "slice", "array", "map":
+		if rapid.IntRange(0, 3).Draw(t, "wrap") != 0 {
+			return td
+		}
+	case "struct":
+		// (this is how catalogue structs with Validate / InitDefaults get inlined: the shared generator inlines
+		// method-free structs only)
+		if rapid.IntRange(0, 7).Draw(t, "wrapst") != 0 {
+			return td
+		}
+	default:
+		return td
+	}
+	*ctr++
+	holder := &gen.TD{Kind: "struct", Fields: []gen.FD{{Name: "C", Inline: true, T: td}}}
+	if rapid.IntRange(0, 3).Draw(t, "squash") == 0 {
+		holder.Fields[0].Inline, holder.Fields[0].Policy = false, "squash" // the other spelling of the option
+	}
+	if rapid.IntRange(0, 3).Draw(t, "sibling") == 0 {
+		// a named field next to the inline one. Next to an inline map (which takes every key of the namespace) it has
+		// the map's element type, so that its setting converts into both
+		st := &gen.TD{Kind: rapid.SampledFrom([]string{"int", "string", "dur", "cat:c04_vi", "cat:c04_ds"}).Draw(t, "sibk")}
+		switch sh.Kind {
+		case "map":
+			st = nil
+			if sh.Elem.IsLeaf() {
+				st = &gen.TD{Kind: sh.Elem.Kind}
+			}
+		case "struct":
+			if inlineCollField(sh) != nil {
+				st = nil // (an inline map further in would take the sibling's key)
+			}
+		}
+		if st != nil {
+			sib := gen.FD{Name: "S", Tag: fmt.Sprintf("w%d", *ctr), T: st}
+			if rapid.Bool().Draw(t, "sibfirst") {
+				holder.Fields = append([]gen.FD{sib}, holder.Fields...)
+			} else {
+				holder.Fields = append(holder.Fields, sib)
+			}
+		}
+	}
+	return holder
+}
+
+func wrapInline(t *rapid.T, td *gen.TD, ctr *int) {
+	switch td.Kind {
+	case "ptr", "slice", "array", "map":
+		inner := td.Elem
+		td.Elem = maybeWrap(t, td.Elem, ctr)
+		wrapInline(t, inner, ctr)
+	case "struct":
+		for i := range td.Fields {
+			f := &td.Fields[i]
+			inner := f.T
+			if !isInline(f) && !f.Ignore && !f.Unexp {
+				f.T = maybeWrap(t, f.T, ctr)
+			}
+			wrapInline(t, inner, ctr)
+		}
+	}
+}
+
+// needsSetting reports whether a value of this type cannot be unpacked from an
+// absent setting: a struct that holds (directly, or through struct fields that
+// are not pointers) an inline array of non-zero length requires a list of that
+// length.
+func needsSetting(td *gen.TD) bool {
+	sh := td.Shape()
+	if sh.Kind != "struct" {
+		return false
+	}
+	for i := range sh.Fields {
+		f := &sh.Fields[i]
+		if f.Ignore || f.Unexp {
+			continue
+		}
+		if fsh := f.T.Shape(); isInline(f) && fsh.Kind == "array" && fsh.N > 0 {
+			return true
+		}
+		if needsSetting(f.T) {
+			return true
+		}
+	}
+	return false
 }
 
 // validatedElem draws a small type that carries validators: a catalogue type,
@@ -190,13 +336,17 @@ func (g *cfgGen) deliver(n *gen.Tree) *gen.Tree {
 }
 
 var (
-	cfgInts    = []int64{0, 1, -1, 2, 5, 42, 100, -5, 13, 101}
-	cfgUints   = []uint64{0, 1, 2, 5, 42, 100, 43}
-	cfgFloats  = []float64{0, 1, 1.5, -2.25, 42, 100.5, -0.5}
+	// values on both sides of (and on) every bound of the parameter pools
+	cfgInts    = []int64{0, 1, -1, 2, 5, 42, 100, -5, 13, 101, 4, 6, 14, 15, 16, 17, 41, 43, -4, -6, -14, -15, -16, -17, 999, 1000, 1001}
+	cfgUints   = []uint64{0, 1, 2, 5, 42, 100, 43, 4, 6, 14, 15, 16, 17, 41, 999, 1000, 1001}
+	cfgFloats  = []float64{0, 1, 1.5, -2.25, 42, 100.5, -0.5, 0.5, 0.25, 0.75, 0.001, 0.002, 100, 101, -1, -0.75}
 	cfgStrings = []string{"", "a", "x y", "bad", "0", "a.b"}
-	cfgDurs    = []string{"0s", "1s", "500ms", "-1s", "2h", "10ns", "1500ms", "3h"}
+	cfgDurs    = []string{"0s", "1s", "500ms", "-1s", "2h", "10ns", "1500ms", "3h", "-200ms", "-500ms", "250ms", "499ms", "501ms", "999ms", "1001ms", "90m", "89m", "1.5h", "1ms", "2ms", "1us", "1ns", "-1500ms", "-1501ms", "-2s", "-700ms", "2500ms", "60500ms", "9s", "11s"}
+	cfgDurNums = []float64{0, 1, 2, -1, 10, -2, 3, 7200, 0.5, 0.25, 1.5, 2.5, -0.5, -1.5, 0.75, -0.25}
 	cfgRegexps = []string{"", "a.*b$", "^[0-9]+"}
 	cfgMapKeys = []string{"k", "j", "K", "a b", "n"}
+	// the keys the InitDefaults methods of the catalogue insert
+	cfgDefaultKeys = []string{"dflt", "ok"}
 )
 
 func num(i int64) *gen.Tree {
@@ -214,7 +364,12 @@ func (g *cfgGen) leaf(td *gen.TD) *gen.Tree {
 		return gen.Bool(rapid.Bool().Draw(t, "b"))
 	case b == "dur":
 		if rapid.IntRange(0, 2).Draw(t, "dnum") == 0 {
-			return num(rapid.SampledFrom([]int64{0, 1, 2, -1, 10}).Draw(t, "dsec"))
+			// a number of seconds, integral or fractional
+			f := rapid.SampledFrom(cfgDurNums).Draw(t, "dsec")
+			if f == float64(int64(f)) {
+				return num(int64(f))
+			}
+			return gen.Float(f)
 		}
 		return gen.Str(rapid.SampledFrom(cfgDurs).Draw(t, "d"))
 	case strings.HasPrefix(b, "int"):
@@ -253,38 +408,72 @@ func (g *cfgGen) value(td *gen.TD) *gen.Tree {
 	switch sh.Kind {
 	case "ptr":
 		return g.value(sh.Elem)
-	case "slice":
-		if sh.Elem.Shape().IsLeaf() && rapid.IntRange(0, 9).Draw(t, "single") == 0 {
-			return g.deliver(g.leaf(sh.Elem)) // a primitive is a list of length one
-		}
-		l := gen.List()
-		n := rapid.IntRange(0, 3).Draw(t, "len")
-		for i := 0; i < n; i++ {
-			l.Vals = append(l.Vals, g.value(sh.Elem))
-		}
-		return g.deliver(l)
-	case "array":
-		l := gen.List()
-		for i := 0; i < sh.N; i++ {
-			l.Vals = append(l.Vals, g.value(sh.Elem))
-		}
-		return g.deliver(l)
+	case "slice", "array":
+		return g.list(sh, true)
 	case "map":
 		o := gen.Obj()
-		n := rapid.IntRange(0, 2).Draw(t, "nkeys")
-		for i := 0; i < n; i++ {
-			k := rapid.SampledFrom(cfgMapKeys).Draw(t, "key")
-			if o.Get(k) == nil {
-				o.Put(k, g.value(sh.Elem))
-			}
-		}
+		g.entries(sh, o)
 		return g.deliver(o)
 	case "struct":
+		if f := inlineCollField(sh); f != nil {
+			// the setting of a struct with an inline list is the list itself (named fields then stay unmentioned);
+			// an object mentions its named fields and leaves the list empty, which an inline array does not accept
+			if fsh := f.T.Shape(); fsh.Kind != "map" {
+				named := false
+				for i := range sh.Fields {
+					if x := &sh.Fields[i]; !isInline(x) && !x.Ignore && !x.Unexp && needsSetting(x.T) {
+						named = true
+					}
+				}
+				if !named && ((fsh.Kind == "array" && fsh.N > 0) || rapid.IntRange(0, 5).Draw(t, "aslist") != 0) {
+					return g.list(fsh, false)
+				}
+			}
+		}
 		o := gen.Obj()
 		g.fields(sh, o)
 		return g.deliver(o)
 	}
 	panic("c04: no setting for kind " + sh.Kind)
+}
+
+// list draws a list setting for a slice or array type (single: a primitive
+// may stand for a list of length one).
+func (g *cfgGen) list(sh *gen.TD, single bool) *gen.Tree {
+	t := g.t
+	l := gen.List()
+	if sh.Kind == "array" {
+		for i := 0; i < sh.N; i++ {
+			l.Vals = append(l.Vals, g.value(sh.Elem))
+		}
+		return g.deliver(l)
+	}
+	if single && sh.Elem.Shape().IsLeaf() && rapid.IntRange(0, 9).Draw(t, "single") == 0 {
+		return g.deliver(g.leaf(sh.Elem)) // a primitive is a list of length one
+	}
+	n := rapid.IntRange(0, 3).Draw(t, "len")
+	for i := 0; i < n; i++ {
+		l.Vals = append(l.Vals, g.value(sh.Elem))
+	}
+	return g.deliver(l)
+}
+
+// entries adds settings for up to two keys of a map type to o: other keys than
+// the pre-filled / InitDefaults ones as a rule, sometimes the very keys the
+// catalogue's InitDefaults methods insert.
+func (g *cfgGen) entries(sh *gen.TD, o *gen.Tree) {
+	t := g.t
+	n := rapid.IntRange(0, 2).Draw(t, "nkeys")
+	for i := 0; i < n; i++ {
+		pool := cfgMapKeys
+		if rapid.IntRange(0, 3).Draw(t, "dkey") == 0 {
+			pool = cfgDefaultKeys
+		}
+		k := rapid.SampledFrom(pool).Draw(t, "key")
+		if o.Get(k) == nil {
+			o.Put(k, g.value(sh.Elem))
+		}
+	}
 }
 
 // fields mentions a random subset of the struct's fields in o.
@@ -295,11 +484,21 @@ func (g *cfgGen) fields(sh *gen.TD, o *gen.Tree) {
 		if f.Ignore || f.Unexp {
 			continue
 		}
-		if f.Inline {
-			g.fields(f.T.Shape(), o)
+		if isInline(f) {
+			switch fsh := f.T.Shape(); fsh.Kind {
+			case "struct":
+				g.fields(fsh, o)
+			case "map":
+				g.entries(fsh, o) // an inline map takes the keys of the enclosing namespace
+			}
+			// (named entries are not unpacked into an inline list)
 			continue
 		}
-		switch rapid.IntRange(0, 11).Draw(t, "mention") {
+		m := rapid.IntRange(0, 11).Draw(t, "mention")
+		if needsSetting(f.T) {
+			m = 11
+		}
+		switch m {
 		case 0, 1, 2, 3, 4:
 			// absent
 		case 5:
@@ -325,8 +524,13 @@ func genCase(t *rapid.T) Case {
 		c.Policy = rapid.IntRange(1, 3).Draw(t, "policy")
 	}
 	cfg := tdCfg()
+	if rapid.IntRange(0, 11).Draw(t, "toplevel") == 0 {
+		return genCollTarget(t, c, cfg)
+	}
 	c.T = gen.GenStructTD(t, cfg, runlog.Pick(3, 4))
 	enrich(t, c.T)
+	ctr := 1000
+	wrapInline(t, c.T, &ctr)
 	assignTags(t, c.T, 2)
 	if !hasValidators(c.T) {
 		assignTags(t, c.T, 0)
@@ -345,6 +549,39 @@ func genCase(t *rapid.T) Case {
 	g.fields(c.T, c.Cfg)
 	for i, r := range g.refs {
 		c.Cfg.Put(fmt.Sprintf("r%d", i), r)
+	}
+	return c
+}
+
+// genCollTarget draws a case whose Unpack target is not a struct but a map,
+// slice or array (plain, or a catalogue type with Validate / InitDefaults) of
+// elements that carry validators: the configuration itself is the object /
+// list. (No references: the settings rN would be entries of the target.)
+func genCollTarget(t *rapid.T, c Case, cfg *gen.TDCfg) Case {
+	c.VarExp = false
+	switch rapid.IntRange(0, 5).Draw(t, "topkind") {
+	case 0, 1:
+		c.T = &gen.TD{Kind: "map", Elem: validatedElem(t)}
+	case 2:
+		c.T = &gen.TD{Kind: "slice", Elem: validatedElem(t)}
+	case 3:
+		c.T = &gen.TD{Kind: "array", N: rapid.IntRange(1, 3).Draw(t, "n"), Elem: validatedElem(t)}
+	default:
+		c.T = &gen.TD{Kind: rapid.SampledFrom([]string{"cat:c04_dm", "cat:c04_mi", "cat:c04_ms", "cat:c04_mp", "cat:c04_vl"}).Draw(t, "topcat")}
+	}
+	ctr := 1000
+	wrapInline(t, c.T, &ctr)
+	assignTags(t, c.T, 1)
+	if rapid.IntRange(0, 3).Draw(t, "zero") != 0 {
+		c.Pre = gen.GenTV(t, cfg, c.T, false)
+	}
+	g := &cfgGen{t: t}
+	sh := c.T.Shape()
+	if sh.Kind == "map" {
+		c.Cfg = gen.Obj()
+		g.entries(sh, c.Cfg)
+	} else {
+		c.Cfg = g.list(sh, false)
 	}
 	return c
 }
